@@ -22,13 +22,21 @@ CLAIM = dict(
          "commutative monoid; the loop terminates as soon as one answer contains all references; the original rule "
          "`old := ready` provably double-counts on the admissible schedule [5,6,7] -> [0,1,2,4,6,7] -> all and is "
          "equivalent to the repaired rule exactly on nested answer sequences; self_to_path returns each path point's "
-         "own value and to_grid the same grid means for every arrival permutation, also composed with the loop.",
+         "own value and to_grid the same grid means for every arrival permutation, also composed with the loop; "
+         "self_to_path is a pure function of (path k-points, collected k-points) that leaves the Path object unchanged, so "
+         "any number of run() calls on one Path object each return every point's own value, whereas a mapping remembered "
+         "on the Path object provably returns other points' values in the second call.",
     note="Trusted: Lean kernel + Mathlib; the harness and the stub `ray` (ray's contract: wait answers with distinct "
          "references out of the list it was given); commutativity/associativity of result addition is exact only "
          "for the integer-valued toy calculator (bitwise comparison) and holds within rounding for float data. "
          "Worker environment set-up (parallel.py) and real ray transport are exercised only in the thorough tier.",
 )
 TRUSTED = [
+    "regenerated on every run: `stepGen`, the body of the `while True:` ray.wait loop, is produced from the LIVE source of "
+    "process() by an AST translator (harness/props/_translate.py; fragment: min/len/+, `r in ready` comprehension, "
+    "&,|,~ on boolean vectors, np.where(..)[0] loop adding set_result, `if a >= b: break`) and the kernel checks that it "
+    "is definitionally the model step `step true`; the translator itself is trusted; outside the fragment the hand "
+    "model is used (evidence note)",
     "modelled: process() parallel branch (ray.wait loop, remotes_calculated_old bookkeeping, num_returns requests, "
     "order of result_sum additions), serial branch as range(n); TABresult.self_to_path (first arrival matching the "
     "path point), TABresult.to_grid + K__Result.to_grid (mean of arrivals on a grid point)",
@@ -258,6 +266,28 @@ def corr_tab(ctx):
             if list(got) != val or list(gotX) != [3 * v + 1 for v in val] or \
                     np.abs(tot.kpoints - np.array(base) / D).max() > 0:
                 ctx.fail(f"self_to_path: got {list(got)} expected {val}", case)
+            # ---- a SECOND result collected in another order, reordered with the SAME Path object (two run() calls on
+            # one Path: serial then parallel, or two parallel runs with different completion orders)
+            order2 = list(range(len(batches)))
+            rng.shuffle(order2)
+            if rng.random() < 0.3:
+                order2 = list(range(len(batches)))       # the serial order
+            with quiet():
+                tot2 = None
+                for b in order2:
+                    t = make_tab([[c / D for c in base[j]] for j in batches[b]], [val[j] for j in batches[b]], "path")
+                    tot2 = t if tot2 is None else tot2 + t
+                tot2.self_to_path(path)
+            got2 = tot2.results["Energy"].data[:, 0]
+            arr2 = [j for b in order2 for j in batches[b]]
+            lines.append(f"topath2 {ints(key[j] for j in arr)} {rats(val[j] for j in arr)} "
+                         f"{ints(key[j] for j in arr2)} {rats(val[j] for j in arr2)} {ints(key)}")
+            expect.append(",".join(str(int(x)) for x in got) + " " + ",".join(str(int(x)) for x in got2))
+            cases.append(dict(case, order2=order2))
+            ctx.count("corr.path.two_calls_on_one_Path.different_order" if order2 != order else "corr.path.two_calls_on_one_Path.same_order")
+            if list(got2) != val:
+                ctx.fail(f"self_to_path, second call with the same Path object: got {list(got2)} expected {val}",
+                         dict(case, order2=order2))
         # ---- grid: every grid point covered 1-3 times, arrival order random
         g = [rng.choice([1, 2, 4]) for _ in range(3)]
         pts = []
@@ -301,6 +331,44 @@ def check_tab(ctx, lines, expect, cases, out):
                 ctx.mismatch(f"to_grid: model={o} code={e}", dict(line=l, case=c))
     if lines:
         ctx.sample(dict(protocol_line=lines[0], model=out[0], code=str(expect[0])))
+
+
+def tables(ctx):
+    """regenerate the step of the ray.wait loop from the live source of process() (AST translator) and let the kernel
+    check that it IS the repaired model step, for which the theorems are proved"""
+    from ..common import REPO
+    from . import _translate as T
+    try:
+        definition, info = T.translate_wait_loop(REPO)
+    except T.OutsideFragment as e:
+        ctx.note(f"translator: the ray.wait loop of process() left the supported Python fragment ({e}); the hand-written "
+                 f"model `step` is used and tied to the code by the correspondence check only")
+        ctx.count("tables.wait_loop.fallback_to_hand_model")
+        return
+    header = "import WB.Props.C12\nnamespace WB.C12\nnamespace Gen\n"
+    ths = [
+        ("gen_eq_repaired",
+         "theorem gen_eq_repaired (s : State) (ready : List Nat) : stepGen s ready = step true s ready := by\n"
+         "  first\n    | rfl\n    | (unfold stepGen step diffOf numReturns; simp)\n"),
+        ("gen_eq_original",
+         "theorem gen_eq_original (s : State) (ready : List Nat) : stepGen s ready = step false s ready := by\n"
+         "  first\n    | rfl\n    | (unfold stepGen step diffOf numReturns; simp)\n"),
+    ]
+    res, out = T.check_generated(ctx, "GenC12.lean", header, definition, ths)
+    if res is None:
+        ctx.note("translator: the regenerated stepGen did not compile; hand model used. " + out[-300:].replace("\n", " | "))
+        ctx.count("tables.wait_loop.fallback_to_hand_model")
+        return
+    ctx.count("tables.wait_loop.regenerated")
+    if res["gen_eq_repaired"]:
+        T.record(ctx, "Gen.gen_eq_repaired(stepGen from live process() = step true)", True)
+        ctx.note("translator: the loop step regenerated from the live process() equals the model step `old := old ∪ ready` "
+                 "(checked by the kernel), so collect_once / collect_never_twice hold for the regenerated definition")
+    else:
+        why = "it equals the ORIGINAL rule `old := ready`, for which old_rule_double_counts is a proved counterexample" \
+            if res["gen_eq_original"] else "it equals neither the repaired nor the original model step"
+        T.record(ctx, "Gen.gen_eq_repaired(stepGen from live process() = step true)", False,
+                 f"the loop step regenerated from the live process() is not the model step the theorems are about: {why}")
 
 
 def corr(ctx):
@@ -486,29 +554,59 @@ def oracle_tabulate(ctx, scale):
 
 
 def oracle_real_ray(ctx):
-    """thorough tier: the real ray (2 workers), tasks skewed by sleeps so that they complete out of order"""
+    """thorough tier: the real ray (3 workers), tasks skewed by sleeps so that they complete out of order.  Runs when
+    the machine is quiet enough for ray to start in time; otherwise (or when ray cannot start) it is a NOTE, never a
+    failure of the property."""
     import subprocess
     import sys
     import os
     import json
+    import signal
+    import shutil
     script = os.path.join(os.path.dirname(os.path.abspath(__file__)), "_c12_realray.py")
     if not os.path.exists(script):
         ctx.note("real-ray script missing: skipped")
         return
-    try:
-        p = subprocess.run([sys.executable, "-W", "ignore", script, str(ctx.rng.getrandbits(30))], capture_output=True,
-                           text=True, timeout=120, env=dict(os.environ))
-    except subprocess.TimeoutExpired:
-        ctx.note("real-ray run timed out after 120 s: skipped (infrastructure, not a property failure)")
+    load = os.getloadavg()[0]
+    ncpu = os.cpu_count() or 1
+    if load > 3 * ncpu and not os.environ.get("WB_FORCE_REAL_RAY"):
+        ctx.note(f"real-ray leg skipped: machine loaded (load average {load:.0f} on {ncpu} cores); ray.init alone took "
+                 f"> 2 min under such load.  Set WB_FORCE_REAL_RAY=1 to try anyway")
+        ctx.count("oracle.realray.skipped_machine_loaded")
         return
-    line = [l for l in p.stdout.split("\n") if l.startswith("RESULT ")]
+    timeout = 330
+    p = subprocess.Popen([sys.executable, "-W", "ignore", script, str(ctx.rng.getrandbits(30))], stdout=subprocess.PIPE,
+                         stderr=subprocess.PIPE, text=True, env=dict(os.environ), start_new_session=True)
+    try:
+        out, err = p.communicate(timeout=timeout)
+    except subprocess.TimeoutExpired:
+        try:
+            os.killpg(p.pid, signal.SIGTERM)
+        except Exception:
+            pass
+        try:
+            out, err = p.communicate(timeout=20)
+        except Exception:
+            try:
+                os.killpg(p.pid, signal.SIGKILL)
+            except Exception:
+                pass
+            out, err = "", ""
+        shutil.rmtree(os.path.join(rg.SCRATCH, f"c12ray-{p.pid}"), ignore_errors=True)
+        ctx.note(f"real-ray run timed out after {timeout} s: skipped (infrastructure, not a property failure)")
+        ctx.count("oracle.realray.timed_out")
+        return
+    shutil.rmtree(os.path.join(rg.SCRATCH, f"c12ray-{p.pid}"), ignore_errors=True)
+    line = [l for l in out.split("\n") if l.startswith("RESULT ")]
     if p.returncode != 0 or not line:
-        ctx.note("real-ray run could not be performed in this sandbox: " + (p.stderr or p.stdout)[-300:].replace("\n", " | "))
+        ctx.note("real-ray run could not be performed in this sandbox: " + (err or out)[-300:].replace("\n", " | "))
+        ctx.count("oracle.realray.could_not_start")
         return
     res = json.loads(line[0][7:])
+    ctx.note(f"real-ray leg ran: {len(res['cases'])} run() pairs (ray.init {res.get('init_s', '?')} s, total {res.get('total_s', '?')} s)")
     for r in res["cases"]:
         ctx.case(signature=("realray", str(r["case"])), nontrivial=r["out_of_order"])
-        ctx.count("oracle.realray.out_of_order" if r["out_of_order"] else "oracle.realray.in_order")
+        ctx.count("oracle.realray.completed_out_of_order" if r["out_of_order"] else "oracle.realray.completed_in_order")
         if not r["ok"]:
             ctx.fail("real ray: " + r["what"], r["case"])
 
